@@ -2,7 +2,8 @@ open Drv_common
 
 (* Shared reader of the verdict field produced by harness/cmd/run/histprop.go:
    exec records  k|res|len|fresh:<res>:<same>|proj:<res>:<same>|sticky:b|shared:a,b|opening:a|tohtml:b|rep:b
-   and clause records  P<k>:b  C<k>:b *)
+   and clause records  P<k>:b  C<k>:b  F<k>:b (the result of exec op k is the same without the Parse calls made
+   after the first execution of its name space) *)
 type exec_rec = {
   k : int; res : string; len : int; fresh_res : string; fresh_same : bool; proj_res : string; proj_same : string;
   sticky : bool; shared : string list; opening : string list; tohtml : bool; rep : string;
@@ -16,7 +17,7 @@ let parse_verdicts (v : string) : exec_rec list * (string * bool) list =
   if v = "-" then ([], [])
   else
     List.fold_left (fun (es, cs) r ->
-        if String.length r > 0 && (r.[0] = 'P' || r.[0] = 'C') then
+        if String.length r > 0 && (r.[0] = 'P' || r.[0] = 'C' || r.[0] = 'F') then
           (es, (String.sub r 0 (String.index r ':'), after_colon r = "1") :: cs)
         else
           match String.split_on_char '|' r with
